@@ -499,6 +499,40 @@ class ScriptGen:
         return out
 
 
+    # ---- CHECKMULTISIG matrix: every m-length signature list over small key sets --------------------
+    def multisig_matrix(self, n, ti, idx):
+        """yield (scriptSig, scriptPubKey, mask, tag): for the n-key set and every m <= n, ALL m-length lists drawn
+        from {valid signature of key i (each i), a signature over another message, the empty signature} —
+        repetitions, permutations and partial matches included — bare and P2SH-wrapped, with and without
+        NULLDUMMY, with non-empty-but-false dummies, hash types ALL and NONE|ANYONECANPAY.  Signatures are made once
+        per (key, script, hash type)."""
+        import itertools
+        H160 = self.C.Hash160
+        cache = self.__dict__.setdefault('_msig_cache', {})
+
+        def sg(ki, script, ht):
+            k = (ki, bytes(script), ht, ti, idx)
+            if k not in cache:
+                cache[k] = self.sign(ki, script, ti, idx, ht, ki != 1)
+            return cache[k]
+        keys = [self.key(i, i != 1)[1] for i in range(n)]
+        for m in range(1, n + 1):
+            ms = pushnum(m) + b''.join(push(k) for k in keys) + pushnum(n) + b'\xae'
+            p2sh = b'\xa9' + push(H160(ms)) + b'\x87'
+            for ht in (1, 0x82):
+                choices = [sg(i, ms, ht) for i in range(n)] + [sg(0, b'\x51' + ms, ht), b'']
+                names = [str(i) for i in range(n)] + ['w', 'e']
+                for combo in itertools.product(range(n + 2), repeat=m):
+                    body = b''.join(push(choices[j]) for j in combo)
+                    tag = 'msig-%dof%d-ht%02x-[%s]' % (m, n, ht, ''.join(names[j] for j in combo))
+                    for mask in (0, 2):
+                        yield (b'\x00' + body, ms, mask, tag)
+                        yield (b'\x00' + body + push(ms), p2sh, mask | 1, tag + '-p2sh')
+                    if ht == 1:
+                        for dummy in (b'\x01\x00', b'\x01\x80', b'\x02\x00\x00'):
+                            for mask in (0, 2):
+                                yield (dummy + body, ms, mask, tag + '-dummy' + dummy[1:].hex())
+
     # ---- SEQUENCE cases: state that could survive across calls in one process ---------------------
     def step(self, kind, a0, a1, mask, ti_or_tx, idx, txref='new'):
         tx = self.txtext[ti_or_tx] if isinstance(ti_or_tx, int) else ti_or_tx
@@ -684,12 +718,15 @@ class ScriptGen:
 class C06(Prop, ScriptGen):
     id = 'C06'
     title = 'Script evaluation agrees with reference Script semantics on every program'
-    lean_targets = ['BtcVerif.Props.C06']
+    lean_targets = ['BtcVerif.Props.C06', 'BtcVerif.Props.C06Concrete']
     table_groups = ['Opcodes']
     theorems = ['BtcVerif.C06.' + t for t in (
         'castToBool_equiv', 'num_encode_equiv', 'num_decode_equiv', 'num_operand_equiv', 'tokenise_equiv',
         'predicates_equiv', 'step_equiv', 'eval_equiv_partial', 'eval_fails_iff_partial', 'eval_stack_partial',
-        'verify_equiv_partial', 'findAndDelete_equiv', 'eval_equiv', 'eval_fails_iff', 'eval_stack', 'verify_equiv')]
+        'verify_equiv_partial', 'findAndDelete_equiv', 'eval_equiv', 'eval_fails_iff', 'eval_stack', 'verify_equiv')] + \
+        ['BtcVerif.C06.Concrete.' + t for t in (
+            'rawSignatureHash_ignores_leading_codesep', 'codesepInsensitive_real', 'findAndDelete_coherent',
+            'eval_equiv_real', 'verify_equiv_real')]
     anchors = [('bitcoin/core/scripteval.py', f) for f in (
         '_EvalScript', '_CheckMultiSig', '_CheckSig', '_BinOp', '_UnaryOp', '_CastToBool', '_CastToBigNum',
         '_CheckExec', 'EvalScript', 'VerifyScript')] + \
@@ -845,6 +882,15 @@ class C06(Prop, ScriptGen):
                 sc, st = self.multisig_program(rng, ti, idx, n=n)
                 for mask in (0, 2) + ((3, 11) if big else ()):
                     yield self.ev(sc, st, mask, ti, idx, tag='multisig')
+        # (g) CHECKMULTISIG matrix: exhaustive signature lists for n <= 3 keys (n = 4 in thorough)
+        for n in ((1, 2, 3, 4) if big else (1, 2, 3)):
+            ti = n % 3
+            idx = 0
+            for (sg_, spk_, mask, tag) in self.multisig_matrix(n, ti, idx):
+                i += 1
+                if i % nshards != shard:
+                    continue
+                yield self.vf(sg_, spk_, mask, ti, idx, tag=tag)
         # (f) SEQUENCE cases (histories of calls in one process)
         hist = self.seq_histories(rng, ADMISSIBLE)
         for rep in range(3 if big else 1):
